@@ -118,6 +118,10 @@ pub fn run_pipeline(
     capture: bool,
     log_cmd: bool,
 ) -> (bool, CommandResult) {
+    #[cfg(cicada_verif)]
+    if let Some(r) = crate::verif_hooks::scripted_run_pipeline(sh, cl, capture) {
+        return r;
+    }
     let mut term_given = false;
     if cl.background && capture {
         println_stderr!("cicada: cannot capture output of background cmd");
